@@ -229,10 +229,19 @@ def system_search(run, rnd, dates, n_pops):
         for k in range(n_pops):
             df, kinds = popgen.population(rnd, date)
             # put some incomes on / next to grid points
+            n_broken0 = len(run.broken)
             ok1, on = run.attempt(f"simulate(rounding=True) at {date}", popgen.simulate_all, df, date,
                                   base_targets, rounding=True, replay={"date": date, "data": popgen.frame_to_json(df)})
             ok2, off = run.attempt(f"simulate(rounding=False) at {date}", popgen.simulate_all, df, date,
                                    base_targets, rounding=False)
+            if date < "2015" and not (ok1 and ok2):
+                # completeness of the system for every valid population is only claimed from 2015-01-01 on (C08): at
+                # earlier dates a population the rules cannot handle (a household of 8, a birth year missing from a table)
+                # is not a rounding problem -- unless the error is about a rounding specification
+                bad = [x for x in (on, off) if isinstance(x, Exception)]
+                if not any("ounding" in str(x) for x in bad):
+                    del run.broken[n_broken0:]
+                    continue
             if not ok1 and isinstance(on, KeyError) and "Rounding specifications" in str(on):
                 run.hit({"rule": "derived", "kind": "rounding-key-without-spec"},
                         f"the system asks for a rounding specification that does not exist at {date}: "
@@ -333,6 +342,64 @@ def missing_spec_search(run):
                 "expected [20, 22]", {})
 
 
+def user_rule_presentations_search(run, rnd):
+    """A user rule marked for rounding, handed over in every documented way (a callable named like its column, a dict
+    column name -> callable whose own name is unrelated, a list mixing both): the column must be on the grid of the spec
+    stored under the COLUMN name, its yearly variant must be 12 x the rounded column (not rounded again), and a missing
+    spec must be an error in every presentation."""
+    import warnings
+    import pandas as pd
+    from gettsim import compute_taxes_and_transfers
+    from _gettsim.shared import policy_info
+
+    df = pd.DataFrame({"p_id": [0, 1, 2, 3], "hh_id": [0, 0, 1, 1], "x": [1.0, 2.49, 1000.26, 0.3]})
+    for base, direction, off in ((1.0, "up", 0.0), (0.5, "down", 0.0), (10.0, "nearest", 3.0), (0.01, "nearest", 0.0)):
+        def make(name):
+            ns = {}
+            exec(f"def {name}(x: float) -> float:\n    return x * 1.5\n", ns)  # noqa: S102
+            return policy_info(params_key_for_rounding="grp")(ns[name])
+        spec = {"base": base, "direction": direction}
+        if off:
+            spec["to_add_after_rounding"] = off
+        params = {"grp": {"rounding": {"r_m": spec}}}
+        raw = df["x"].to_numpy() * 1.5
+        q = raw / base
+        steps = np.ceil(q) if direction == "up" else np.floor(q) if direction == "down" else np.round(q)
+        want = base * steps + off
+        presentations = {"callable named like the column": [make("r_m")],
+                         "dict: column name -> callable with another name": {"r_m": make("impl_rente")},
+                         "list containing such a dict": [{"r_m": make("f")}]}
+        for label, fns in presentations.items():
+            run.case({"user-rule": label, "spec": [base, direction, off]})
+            try:
+                with warnings.catch_warnings():
+                    warnings.simplefilter("ignore")
+                    res = compute_taxes_and_transfers(data=df, params=params, functions=fns, targets=["r_m", "r_y"])
+            except Exception as ex:  # noqa: BLE001
+                run.broke("implementation-raises", f"user rule with a rounding key ({label}): {type(ex).__name__}: {str(ex)[:200]}", "")
+                continue
+            got = res["r_m"].to_numpy()
+            if not np.allclose(got, want, rtol=0, atol=1e-9):
+                run.hit({"rule": "user-rule", "kind": "not-rounded-as-specified", "presentation": label},
+                        f"a user rule with rounding key 'grp' ({label}; spec base {base}, {direction}, offset {off}) returns "
+                        f"{got.tolist()} for the unrounded values {raw.tolist()}: expected {want.tolist()}",
+                        {"presentation": label, "spec": spec, "observed": got.tolist(), "expected": want.tolist(), "unrounded": raw.tolist()})
+            elif not np.allclose(res["r_y"].to_numpy(), 12 * want, rtol=1e-12, atol=1e-9):
+                run.hit({"rule": "user-rule", "kind": "derived-column-rounded-again", "presentation": label},
+                        f"r_y is {res['r_y'].tolist()}, not 12 x the rounded r_m {want.tolist()} ({label})",
+                        {"presentation": label, "spec": spec})
+            # without a specification the call must fail
+            try:
+                with warnings.catch_warnings():
+                    warnings.simplefilter("ignore")
+                    compute_taxes_and_transfers(data=df, params={"grp": {"rounding": {}}}, functions=fns, targets=["r_m"])
+                run.hit({"rule": "user-rule", "kind": "missing-spec-is-silent", "presentation": label},
+                        f"a user rule marked for rounding without a specification is computed silently ({label})",
+                        {"presentation": label})
+            except Exception:  # noqa: BLE001
+                pass
+
+
 def run(tier: str) -> int:
     r = common.Run("C10", tier)
     quick = tier == "quick"
@@ -343,6 +410,11 @@ def run(tier: str) -> int:
               "oracle from the real unrounded float; derived columns vs plain conversion of the rounded column")
     emit_lean.regenerate()
     common.build_and_audit(r, ["C10", "C10Sim", "C10Inst"], leanchecker=not quick)
+    # the rounding wrapper inside the real interface: toy systems with rounded rules (list and dict presentation of the
+    # functions, specs with and without offset, missing / malformed specs) vs Core/Simulate.lean
+    import t3
+    t3.run_t3(r, 1000 * common.seed() + 10, 60 if quick else 600)
+    user_rule_presentations_search(r, common.rng("C10-user"))
     rnd = common.rng("C10")
     corr.run_cases(r, "rounding wrapper vs Core/Round.lean", wrapper_cases(rnd, 300 if quick else 5000))
     wrapper_rowwise(r, rnd, 12 if quick else 150)
